@@ -29,12 +29,13 @@ func init() {
 
 func rulesC18(c *Ctx) {
 	ruleC18Globals(c)
-	ruleC18SharedInstance(c)
+	ruleSharedInstance(c, "C18.SHAREDINSTANCE")
 	ruleC18Pool(c)
 	ruleRestoreSwap(c, "C18.RESTORELOCK")
 	ruleC18ReadPath(c)
 	ruleC18View(c)
 	ruleC18ClosureState(c)
+	ruleNoUnsafe(c, "C18.NOUNSAFE")
 }
 
 // ruleC18ClosureState: a closure that outlives the call that built it (returned, or stored in a field of
@@ -628,7 +629,7 @@ func lockHeldAt(p *Prog, fn *ssa.Function, at ssa.Instruction, lock, unlock stri
 // ruleC18SharedInstance: a package-level variable that refers to a MUTABLE object (its type has a
 // pointer-receiver method that stores into the receiver) must not be handed out (returned or stored
 // into other objects) — every caller would then share and mutate one instance.
-func ruleC18SharedInstance(c *Ctx) {
+func ruleSharedInstance(c *Ctx, rule string) {
 	p := c.P
 	mutable := func(t types.Type) (bool, string) {
 		n := namedOf(t)
@@ -695,7 +696,7 @@ func ruleC18SharedInstance(c *Ctx) {
 			isMut, via := mutable(t)
 			name := strings.ReplaceAll(g.String(), modPath+"/", "")
 			if !isMut {
-				c.OK("C18.SHAREDINSTANCE", name, p.Pos(g.Pos()), "refers to an object without mutating methods")
+				c.OK(rule, name, p.Pos(g.Pos()), "refers to an object without mutating methods")
 				continue
 			}
 			// handed out?
@@ -732,7 +733,7 @@ func ruleC18SharedInstance(c *Ctx) {
 					}
 				}
 			}
-			c.Check(leak == "", "C18.SHAREDINSTANCE", name, p.Pos(g.Pos()), "the mutable object is never handed out", "a single package-level instance of a mutable type (method "+via+" writes into it) is "+leak+": concurrent callers mutate the same object")
+			c.Check(leak == "", rule, name, p.Pos(g.Pos()), "the mutable object is never handed out", "a single package-level instance of a mutable type (method "+via+" writes into it) is "+leak+": concurrent callers mutate the same object")
 		}
 	}
 }
